@@ -8,6 +8,10 @@ BUILT = {}  # id -> (technique, level text, level note, design ref)
 def add(pid, technique, text, note, ref):
     BUILT[pid] = (technique, text, note, ref)
 
+BUILD_NOTE = (" Extended during the build by request variants and histories found necessary in fourteen rounds of independently seeded breaks "
+              "(DESIGN.md 8.2 and 8.5: re-used and re-initialised objects, in-place edits by the owner, spare capacity, cloned operands, models with the node between others, "
+              "stray and untyped attributes, optional node names and domains, re-evaluation of deviating cases behind their predecessors, ...).")
+
 TRUST = ("Trusted base: the reference model in harness/ref (self-tested on hand-computed ONNX examples before every run), "
          "Go's math and encoding/binary packages, protobuf-go, gorgonia's At()/Data() accessors, and deterministic "
          "case generation from (VERIF_SEED, property, index). Verdicts hold for the executions listed in the evidence file only.")
@@ -64,7 +68,7 @@ add("C16", "runtime monitoring: metamorphic relations on the real code (batch de
     "Per-sample models (dense chains, Conv, RNN/GRU/LSTM, sample models) are run on a batch and on its rows/permutations/sub-selections; every sample's result must be the same up to rounding and success/failure must agree. Exploration.",
     TRUST, "DESIGN.md §3 C16")
 add("C17", "Go race detector (-race build of the harness and of /repo) over stress workloads with injected yields, plus in-process monitors: sequential-baseline value comparison and weight fingerprints at quiescence",
-    "2..16 goroutines run a shared Model concurrently (own inputs, start barrier, loaders in parallel, PRNG-chosen yields at node boundaries, GOMAXPROCS rotated); the race detector log is parsed for reports, every result is compared bit for bit with its sequential baseline and weights are fingerprinted at quiescence. Held on the executions and interleavings listed in the evidence only.",
+    "Besides the warm trials there is a pass of cold-start trials, one per fresh process, whose concurrent Runs are the first thing the library does in that process. 2..16 goroutines run a shared Model concurrently (own inputs, start barrier, loaders in parallel, PRNG-chosen yields at node boundaries, GOMAXPROCS rotated); the race detector log is parsed for reports, every result is compared bit for bit with its sequential baseline and weights are fingerprinted at quiescence. Held on the executions and interleavings listed in the evidence only.",
     TRUST + " The race detector reports only races between accesses that were executed.", "DESIGN.md §3 C17")
 add("C18", "runtime monitoring: robustness oracle over hostile byte strings with recover() in-process and child-process isolation (write-ahead case log, memory cap, watchdog) for process-fatal failures; errors.Is classification; proxy trace check for foreign operators",
     "Truncation of the small sample models at every offset (complete), byte-level and structured mutations of sample and generated models, random byte strings, opset lists and foreign operator types: loading must return a model or an error (never panic, abort or hang), unsupported opsets/operators must be refused with the dedicated errors and nothing may run after a foreign node. Exploration.",
@@ -85,7 +89,7 @@ def main():
             "evidence_file": "evidence/%s.json" % pid,
             "replay_cmd_template": "./check.sh %s --replay {path}" % pid,
             "engine": "verifcheck",
-            "level_claimed": {"category": "exploration", "text": text, "design_ref": ref},
+            "level_claimed": {"category": "exploration", "text": text + BUILD_NOTE, "design_ref": ref + "; §8"},
             "level_note": note,
             "technique": tech,
         })
